@@ -156,10 +156,10 @@ def build_chars_unit(ctx):
     r.sub("ctor->contracted-stub: String()", r"return String\(\);", "return cs_empty();", 1)
     r.sub("ctor->contracted-stub: String(in,pos,n)", r"return String\(in, ", "return cs_substr(in, ", 1)
     r.splice_loop("loop-contract:trimWhiteSpace#loop1", r"\bfor\s*\(", "__CPROVER_assigns(firstNonWhite)\n"
-                  "__CPROVER_loop_invariant(0 <= firstNonWhite && firstNonWhite <= inz && ((0 <= gk_lead && gk_lead < firstNonWhite) ==> vf_isspace((unsigned char)in->data[gk_lead])))\n"
+                  "__CPROVER_loop_invariant(0 <= firstNonWhite && firstNonWhite <= inz && ((0 <= gk_lead && gk_lead < firstNonWhite) ==> VF_ISSPACE((unsigned char)in->data[gk_lead])))\n"
                   "__CPROVER_decreases(inz - firstNonWhite)", 1)
     r.splice_loop("loop-contract:trimWhiteSpace#loop2", r"\bfor\s*\(", "__CPROVER_assigns(lastNonWhite)\n"
-                  "__CPROVER_loop_invariant(-1 <= lastNonWhite && lastNonWhite <= inz-1 && ((gk_trail > lastNonWhite && gk_trail < inz) ==> vf_isspace((unsigned char)in->data[gk_trail])))\n"
+                  "__CPROVER_loop_invariant(firstNonWhite <= lastNonWhite && lastNonWhite <= inz-1 && ((gk_trail > lastNonWhite && gk_trail < inz) ==> VF_ISSPACE((unsigned char)in->data[gk_trail])))\n"
                   "__CPROVER_decreases(lastNonWhite + 1)", 2)
     ctx.add_function(STRING_CPP, "String::trimWhiteSpace(const std::string&)", c.start, c.end, c.text, "M2", r.dropped, r.log)
     parts.append('#include "%s/string_chars_contracts.h"\n' % SPEC)
@@ -174,7 +174,7 @@ def build_chars_unit(ctx):
     r.sub("reference->pointer: return *this", r"return \*this;", "return self;", 1)
     r.splice_loop("loop-contract:toLower#loop1", r"\bfor\s*\(", "__CPROVER_assigns(i, __CPROVER_object_whole(self->data))\n"
                   "__CPROVER_loop_invariant(0 <= i && i <= self->len"
-                  " && ((gk_idx < i) ==> self->data[gk_idx] == (char)vf_tolower(__CPROVER_loop_entry(self->data[gk_idx < self->len ? gk_idx : self->len])))"
+                  " && ((gk_idx < i) ==> self->data[gk_idx] == (char)VF_TOLOWER((int)__CPROVER_loop_entry(self->data[gk_idx < self->len ? gk_idx : self->len])))"
                   " && ((gk_idx >= i && gk_idx < self->len) ==> self->data[gk_idx] == __CPROVER_loop_entry(self->data[gk_idx < self->len ? gk_idx : self->len])))\n"
                   "__CPROVER_decreases(self->len - i)", 1)
     ctx.add_function(STRING_CPP, "String::toLower", c.start, c.end, c.text, "M2", r.dropped, r.log)
@@ -203,7 +203,7 @@ def build_chars_unit(ctx):
 
 def chars_jobs(ctx, J, chars_c):
     CHK = ["--bounds-check", "--pointer-check", "--signed-overflow-check", "--object-bits", "10"]
-    STUBS_ = ["cs_copy"]
+    STUBS_ = []
     J(cbmc_unit, "string.chars.trimWhiteSpace", [chars_c], "h_trimWhiteSpace_s", enforce="String_trimWhiteSpace_s", replace=STUBS_,
       loop_contracts=True, cbmc_args=CHK, require_props=[r"postcondition", r"loop_invariant_step", r"loop_invariant_base"],
       function="String::trimWhiteSpace(const std::string&)", timeout=300)
@@ -211,10 +211,10 @@ def chars_jobs(ctx, J, chars_c):
       loop_contracts=True, cbmc_args=CHK, require_props=[r"postcondition", r"loop_invariant_step", r"loop_invariant_base"],
       function="String::toLower", timeout=300)
     J(cbmc_unit, "string.chars.trimWhiteSpace_member", [chars_c], "h_trimWhiteSpace_m", enforce="String_trimWhiteSpace_m",
-      replace=STUBS_ + ["String_trimWhiteSpace_s"], cbmc_args=CHK, require_props=[r"postcondition"],
+      replace=STUBS_, loop_contracts=True, cbmc_args=CHK, require_props=[r"postcondition", r"loop_invariant_step"],
       function="String::trimWhiteSpace()", timeout=300)
     J(cbmc_unit, "string.chars.cleanUp", [chars_c], "h_cleanUp", enforce="cleanUp",
-      replace=STUBS_ + ["String_trimWhiteSpace_m", "String_toLower"], cbmc_args=CHK, require_props=[r"postcondition"],
+      replace=STUBS_, loop_contracts=True, cbmc_args=CHK, require_props=[r"postcondition", r"loop_invariant_step"],
       function="cleanUp", timeout=300)
 
 
@@ -225,7 +225,7 @@ _exe = {}
 def replay_exe(ctx):
     if "exe" not in _exe:
         _exe["exe"] = native_build(ctx, "c32_replay", os.path.join(VERIF, "replay/c32_replay.cpp"),
-                                   defines=['REPO_STRING_CPP="%s"' % STRING_CPP], libs=True)
+                                   defines=['REPO_STRING_CPP="%s"' % STRING_CPP], libs=False)
     return _exe["exe"]
 
 
